@@ -580,6 +580,18 @@ pub fn cmd_gen(seed: u64, count: usize, out: &str, ty: &str, small: bool) {
                 ops.push(json!({"op": "push", "s": 3, "v": v}));
             }
         }
+        if kind == 2 && nsym >= 10 {
+            // Fibonacci counts: the symbol of rank n-9 has an 8-bit code, the two most frequent ones 1 and 2 bits.
+            // Items that leave 1..7 pending bits of either polarity, each followed by an item that starts with the
+            // 8-bit code (the encoder's byte-aligned paths)
+            let (top, second, eight) = (syms[nsym - 1], syms[nsym - 2], syms[nsym - 9]);
+            for k in 1..8usize {
+                ops.push(json!({"op": "push", "s": 3, "v": vec![top; k]}));
+                ops.push(json!({"op": "push", "s": 3, "v": [eight]}));
+                ops.push(json!({"op": "push", "s": 3, "v": vec![second; (k + 1) / 2]}));
+                ops.push(json!({"op": "push", "s": 3, "v": [eight, top]}));
+            }
+        }
         if rng.gen_bool(0.25) {
             // outside the statistics: must be refused
             let mut o = rng.gen_range(0..maxsym);
